@@ -1,6 +1,6 @@
 SPECIFICATION MCSpec
 CONSTANTS
-  PermuteModules = FALSE
+  PermuteModules = TRUE
   NB0 = {0, 1, 2}
   Variants = {"none", "same", "ext", "extm0", "trunc", "swap", "rename", "recv", "ptype", "pcount", "ret", "cc", "argname", "vis", "doc"}
   WithB1 = {FALSE, TRUE}
@@ -9,7 +9,7 @@ CONSTANTS
   DDs = {"none", "plain", "diamond"}
   DDVft = {FALSE, TRUE}
   Ptrs = {4, 8}
-  Split = {FALSE}
+  Split = {TRUE}
 INVARIANTS Replay
 CHECK_DEADLOCK FALSE
 VIEW View
